@@ -160,6 +160,8 @@ class Joiner:
                     return x
                 if isinstance(x, int) and isinstance(y, int) and a.kind in ("slice", "take", "chunks", "windows", "enumerate") and tag == "n":
                     return self.sym(x, y, path + (tag,))
+                if a.kind == "chars" and tag == "n":
+                    return "advanced"  # at the start on one side only: position unknown
                 return None
             return Iter(a.kind, j(a.a, b.a, "a"), j(a.b, b.b, "b"), j(a.n, b.n, "n"), a.finite and b.finite)
         if ta is Iter and tb is Iter:
